@@ -38,6 +38,9 @@ class C05(C.ProgramDiff):
     def decode(self, src):
         case = C.ProgramDiff.decode(self, src)
         k = src.n(8)
+        if k in (4, 5):
+            case = self.decode_shapes(src, case, k)
+            return case
         if k >= 6:
             clauses = list(case['clauses'])
             queries = list(case['queries'])
@@ -79,6 +82,87 @@ class C05(C.ProgramDiff):
             case['clauses'] = clauses
             case['queries'] = queries
             case['text'] = gen.program_text(clauses, src)
+        return case
+
+    def decode_shapes(self, src, case, k):
+        from ..terms import term_vars, body_vars, body_map_terms
+        clauses = list(case['clauses'])
+        queries = list(case['queries'])
+        V = lambda n: ('v', 'S%s' % n)      # noqa: E731
+        f = lambda name, *a: ('f', name, tuple(a))      # noqa: E731
+        call = lambda t: ('call', t)      # noqa: E731
+        eq = lambda a, b: call(f('=', a, b))      # noqa: E731
+        A = lambda n: ('a', n)      # noqa: E731
+        unary = sorted({h[1] for h, _ in clauses if h[0] == 'f' and len(h[2]) == 1})
+        gen1 = (lambda v: call(f(src.pick(unary), v))) if unary and src.n(2) else (lambda v: (';', eq(v, A('a')), eq(v, A('b'))))
+        if k == 4:
+            # a branch that ends in a cut, then a row of 2-4 two-way choices in the same body (the continuation of the
+            # first construct is needed once per branch), and a later clause
+            n = 2 + src.n(3)
+            first = src.pick([
+                (';', (',', eq(V(0), A('stop')), ('cut',)), gen1(V(1))),
+                (';', ('->', eq(V(0), A('stop')), (',', eq(V(1), A('none')), ('cut',))), gen1(V(1))),
+                (';', gen1(V(1)), (',', eq(V(0), A('stop')), ('cut',))),
+                (',', gen1(V(1)), (';', (',', eq(V(1), A('b')), ('cut',)), ('true',)))])
+            row = [src.pick([(';', eq(V(2 + i), A('x')), eq(V(2 + i), A('y'))),
+                             (';', ('->', eq(V(0), A('go')), eq(V(2 + i), A('x'))), eq(V(2 + i), A('y'))),
+                             (';', eq(V(2 + i), A('x')), (';', eq(V(2 + i), A('y')), eq(V(2 + i), A('z'))))]) for i in range(n)]
+            body = row[-1]
+            for g in reversed(row[:-1]):
+                body = (',', g, body)
+            body = (',', first, body)
+            head = f('rw', *[V(i) for i in range(2 + n)])
+            clauses += [(head, body), (f('rw', *[A('last') for _ in range(2 + n)]), ('true',))]
+            for k0 in ('go', 'stop', None):
+                queries.append(f('rw', A(k0) if k0 else gen.QVARS[0], *[('v', 'Q%d' % (i + 1)) for i in range(1 + n)]))
+            queries = queries[-3:] + queries[:1]
+            case['text'] = gen.program_text(clauses, src)
+        else:
+            # two sibling branches that differ only in a quoted atom versus a variable / a structure that prints alike
+            # (the text is printed with the default variable names V0, V1, ... so that the atom can be named after one)
+            hv = [V(0), V(1)]
+            g = src.pick([call(f('la1', V(0), V(1))), eq(V(1), f('f', V(0))), call(f('la1', f('f', V(0)), V(1)))])
+            which = src.n(3)
+
+            def variant(placeholder):
+                def m(t):
+                    if which == 0 and t == V(0):
+                        return placeholder
+                    if which == 1 and t == V(1):
+                        return placeholder
+                    if which == 2 and t[0] == 'f' and t[1] == 'f':
+                        return placeholder
+                    if t[0] == 'f':
+                        return ('f', t[1], tuple(m(a) for a in t[2]))
+                    return t
+                return body_map_terms(g, m)
+            shape = src.n(4)
+
+            def build(g2):
+                if shape == 0:
+                    return (';', g, g2)
+                if shape == 1:
+                    return (';', g2, g)
+                if shape == 2:
+                    return (';', ('->', eq(V(0), A('k')), g), g2)
+                return (',', (';', ('->', eq(V(0), A('k')), g2), g), eq(V(1), V(1)))
+            head = f('la', V(0), V(1))
+            probe = build(variant(A('\x00')))
+            vs = term_vars(head, [])
+            body_vars(probe, vs)
+            if which == 2:
+                name = 'f(%s)' % ('V%d' % vs.index(V(0)))
+            else:
+                name = 'V%d' % vs.index(V(which))
+            body = build(variant(A(name)))
+            clauses += [(head, body), (f('la1', A('V0'), A('one')), ('true',)), (f('la1', A('V1'), A('two')), ('true',)),
+                        (f('la1', A('k'), A('three')), ('true',)), (f('la1', f('f', A('k')), A('four')), ('true',)),
+                        (f('la1', A('f(V0)'), A('five')), ('true',)), (f('la1', V(0), A('any')), ('true',))]
+            queries = [f('la', gen.QVARS[0], gen.QVARS[1]), f('la', A('k'), gen.QVARS[1]), f('la', A('V0'), gen.QVARS[1])]
+            case['text'] = gen.program_text(clauses)
+            case.pop('split', None)
+        case['clauses'] = clauses
+        case['queries'] = queries
         return case
 
     def nontrivial(self, clauses, q, st, ref, it, feats, classes):
